@@ -12,6 +12,11 @@ L : for every element of the conforming list (spec/Conformity.tla ElemClass) and
     meshes: InteriorFacetBasis(side=0) and (side=1) with the same facet quadrature; for EVERY global DOF the two
     one-sided traces of the unit coefficient vector are recorded (value and, where the class demands it,
     gradient) and TraceC03 decides JumpZero for the functionals of the element's ContinuityClass.
+    Mesh classes driven (harness/meshops.py): meshes built from (p, t); meshes reached through OPERATION HISTORIES
+    from the library's own constructors (refined(marked) / refined / restrict / remove_elements / mirrored / + /
+    scaled / to_meshtri / to_meshtet / with_boundaries / oriented ...); SAME-OBJECT histories (a basis is built on
+    m, operations are called on m and their results discarded, then m is used again); ONE element object per
+    side driven over a sequence of meshes incl. pairs with equal cell counts (element-object reuse).
 Python drives the library and changes representation only.
 """
 import json
@@ -190,7 +195,7 @@ def meshes_for(kind, rng, th):
         out.append(('tri-lattice', *G.tensor_tri([0, 1, 3], [0, 2, 3], (0, 1, 1, 0)), {}))
         out.append(('tri-lattice-shuffled', *shuf(*G.tensor_tri([0, 2, 3], [0, 1, 3], (1, 0, 0, 1))), {}))
         for _ in range(3 if th else 1):
-            out.append(('tri-delaunay-shuffled', *shuf(*U.delaunay_int(2, int(rng.integers(6, 9)), 6, rng)), {}))
+            out.append(('tri-delaunay-shuffled', *shuf(*U.delaunay_int(2, int(rng.integers(6, 9)), 6, rng)), {'big': 1}))
         p, t = U.tri_lattice(2, 2, (0, 1, 0, 1), jiggle=[(4, 0.25, 0.5)])
         out.append(('tri-jiggled-shuffled', *shuf(p * 4, t), {'big': 1}))
     elif kind == 'quad':
@@ -234,7 +239,9 @@ def admissible(name, meta, flags):
     if meta['meshes'] == 'rect' and not flags.get('rect'):
         return False                       # BFS / HexC1 / Quad2G: rectangular / box families only
     if meta['tol'] == 'global' and flags.get('big'):
-        return False                       # ElementGlobal: keep |coordinates| small (conditioning of the Vandermonde matrix)
+        return False                       # ElementGlobal (degree <= 5 monomials in GLOBAL coordinates, inverted
+                                           # Vandermonde matrix): only well-shaped cells with small coordinates; on
+                                           # random Delaunay slivers its round-off alone reaches 1e-6
     if name == 'ElementHexRT1' and flags.get('general'):
         return False                       # "Raviart-Thomas for cube": affine images only
     if flags.get('unsorted') and not direction_free(meta):
@@ -302,6 +309,9 @@ def history_specs(kind, rng):
     return out
 
 
+HEAVY = {'ElementHexC1'}
+
+
 # operations called ON a mesh in use, results discarded (same-object histories)
 TOUCH = {'line': [['refined', 1], ['refined_marked', [0, 2]], ['restrict', [0, 1]], ['mirrored', 0], ['scaled', 0, 2],
                   ['with_boundaries'], ['element_finder'], ['boundary_queries'], ['plus_translated', 0, 16]],
@@ -344,6 +354,8 @@ def generate(tier, seed):
             recs.append(_rec(kind, p, t, name, fam + '-curved', curved={'seed': int(rng.integers(0, 2 ** 31)), 'den': 32}))
         # ---- meshes reached through operation histories (quick: the adaptive ones + a rotating selection)
         hs = [h for h in hcache[kind] if admissible(name, meta, h[2])]
+        if name in HEAVY and not th:
+            hs = hs[:1]                     # budget only: 64 shape functions x 8 derivatives per cell
         if hs and not th:
             keep = [h for h in hs if 'adaptive' in h[0]][en % 2:][:1]
             rest = [h for h in hs if h not in keep]
